@@ -204,7 +204,16 @@ type server struct {
 const stormLimit = 60
 
 func newServer(cs *Case, onRec func(reqRecord)) (*server, error) {
-	ln, err := net.Listen("tcp4", "127.0.0.1:0")
+	// the sandbox may be short of ephemeral ports (TIME_WAIT of thousands of earlier conversations)
+	var ln net.Listener
+	var err error
+	for try := 0; try < 50; try++ {
+		ln, err = net.Listen("tcp4", "127.0.0.1:0")
+		if err == nil {
+			break
+		}
+		time.Sleep(100 * time.Millisecond)
+	}
 	if err != nil {
 		return nil, err
 	}
@@ -829,6 +838,8 @@ func (s *server) serve(nc net.Conn) {
 					act = Act{Kind: MProtoFlip}
 				}
 			}
+		case 4: // every request is answered 401
+			act = Act{Kind: MStatus, A: 401, B: 0}
 		case 3: // OPTIONS is never supported
 			if method == mOptions {
 				act = Act{Kind: MStatus, A: 404}
